@@ -32,6 +32,16 @@ class Mod(roundtrip.RTMod):
             self.display_impls.pop(t, None)
         self.ops = []
 
+    def parse_to(self, I, st, sv, ty, n):
+        # an atom of class 'garbage' is a text no external parser accepts (String takes anything)
+        p = symstr.pieces_of(sv) if isinstance(sv, tuple) and sv and sv[0] in ("sstr", "str") else None
+        if p is not None and any(x[0] == "atom" and x[2] == "garbage" for x in p):
+            if ty == "alloc::string::String":
+                return [(OK, ("enum", OKV, (sv,)), st)]
+            if ty not in self.fromstr_impls:
+                return [(OK, ("enum", ERRV, (symstr.atom("parse-error", "word"),)), st)]
+        return super().parse_to(I, st, sv, ty, n)
+
     def para_pairs(self, I, st, v):
         v = I.deref_val(st, v)
         if v[0] == "abs" and v[1] == "para":
@@ -147,6 +157,12 @@ def field_values(F, fld, some_mode):
     if m:
         if not some_mode:
             return none()
+        if some_mode == "empty":
+            # present but empty, where the type can be empty
+            if m.group(1) == "alloc::string::String":
+                return some(symstr.lit(""))
+            if re.fullmatch(r"alloc::vec::Vec<(.*)>", m.group(1)):
+                return some(("abs", "svec", ()))
         return some(base(m.group(1), name))
     return base(ty, name)
 
@@ -161,30 +177,50 @@ def has_unk(v):
     return any(has_unk(x) for x in v if isinstance(x, tuple))
 
 
+RP = "C16"      # rule prefix (C20 reuses the per-struct analysis under its own prefix)
+
+
 def run(tier):
     F = facts.Facts()
     C = Check("C16", "other", tier, "abstract interpretation of the generated FromDeb822/ToDeb822 impls against a list-of-pairs paragraph model (static)",
               ["rustc macro expansion + HIR/typeck", "hirai + symbolic string domain"])
+    check_structs(F, C)
+    check_backends(F, C)
+    check_empty_value(F, C)
+    C.assumptions += ["opaque field types (lossy Relations, Version, Url, NaiveDate, PathBuf, ParsedVcs) print and parse an atom unchanged: " + "; ".join("%s (%s)" % kv for kv in OPAQUE_TYPES.items()),
+                      "paragraph back-ends implement ordered list semantics for get/set/remove (C04, C08)"]
+    return C.finish("The derive-generated from_paragraph / to_paragraph / update_paragraph of every deriving struct are interpreted over symbolic values "
+                    "(all optionals present / all absent / present-but-empty) against an ordered list-of-pairs paragraph: key set and order, custom (de)serialiser agreement, "
+                    "read-back equality, update touching only own keys, removal of absent optionals, foreign field preservation, the missing-field and unparsable-value error texts.")
+
+
+def check_structs(F, C, only=None, rule_prefix="C16", floors=True):
+    global RP
+    RP = rule_prefix
     structs = {}
     for k, f in sorted(F.fns.items()):
         t = f.get("trait", "")
         if t.endswith("convert::FromDeb822Paragraph") or t.endswith("convert::ToDeb822Paragraph"):
             structs.setdefault(f["self_ty"], {})[f["name"]] = f
-    C.floor("C16/structs", len(structs), FLOOR_STRUCTS, "structs deriving the paragraph conversions")
+    if only is not None:
+        structs = {k: v for k, v in structs.items() if only(k)}
+    if floors:
+        C.floor(RP + "/structs", len(structs), FLOOR_STRUCTS, "structs deriving the paragraph conversions")
     nfields = 0
+    nbad = ndecided = 0
     for sty, fns in sorted(structs.items()):
         adt = F.adts.get(sty)
-        if not C.ob("C16/anchor", sty, adt is not None and {"from_paragraph", "to_paragraph", "update_paragraph"} <= set(fns),
+        if not C.ob(RP + "/anchor", sty, adt is not None and {"from_paragraph", "to_paragraph", "update_paragraph"} <= set(fns),
                     "struct must derive both conversions (have %s)" % sorted(fns)):
             continue
         for name, f in fns.items():
-            C.ob("C16/generic-backend", "%s::%s" % (sty, name), "<P>" in f.get("trait_ref", ""),
+            C.ob(RP + "/generic-backend", "%s::%s" % (sty, name), "<P>" in f.get("trait_ref", ""),
                  "impl is not generic in the paragraph back-end: %s" % f.get("trait_ref"), f["sp"])
         flds = adt["variants"][0]["fields"]
         nfields += len(flds)
         keys_seen = None
-        for some_mode in (True, False):
-            tag = "%s [%s]" % (sty, "all optional fields present" if some_mode else "all optional fields absent")
+        for some_mode in (True, False, "empty"):
+            tag = "%s [%s]" % (sty, "optional fields present with an empty value where the type has one" if some_mode == "empty" else "all optional fields present" if some_mode else "all optional fields absent")
             vals = [field_values(F, fld, some_mode) for fld in flds]
             v = ("struct", sty, tuple((fld["name"], x) for fld, x in zip(flds, vals)))
             mod = Mod(F)
@@ -194,14 +230,14 @@ def run(tier):
             res = I.inline(fns["to_paragraph"], [("ref", p)], st)
             paras = [r for ctl, r, s in res if ctl == OK]
             if len(res) != 1 or len(paras) != 1 or paras[0][0] != "abs" or paras[0][1] != "para" or has_unk(paras[0]):
-                C.ob("C16/decidable", tag + " to_paragraph", False, "to_paragraph could not be decided: %s (unknown calls %s)" % ([str(r)[:200] for _, r, _ in res], sorted(I.unknown_calls)), fns["to_paragraph"]["sp"])
+                C.ob(RP + "/decidable", tag + " to_paragraph", False, "to_paragraph could not be decided: %s (unknown calls %s)" % ([str(r)[:200] for _, r, _ in res], sorted(I.unknown_calls)), fns["to_paragraph"]["sp"])
                 continue
             para = paras[0]
             keys = [symstr.show(k) for k, _ in para[2]]
             present = [fld["name"] for fld, x in zip(flds, vals) if not (x[0] == "enum" and x[1] == NONE)]
-            C.ob("C16/to-paragraph-shape", tag, len(keys) == len(present) and len(set(keys)) == len(keys),
+            C.ob(RP + "/to-paragraph-shape", tag, len(keys) == len(present) and len(set(keys)) == len(keys),
                  "to_paragraph emits keys %s for present fields %s (one distinct key per present field, declaration order)" % (keys, present), fns["to_paragraph"]["sp"])
-            if some_mode:
+            if some_mode is True:
                 keys_seen = keys
                 C.sample({"struct": sty, "keys": keys, "paragraph": [(symstr.show(k), symstr.show(x)) for k, x in para[2]]})
             # round trip
@@ -220,7 +256,7 @@ def run(tier):
                 got.add(normalize(r))
             want = {normalize(("enum", OKV, (v,)))}
             if und and got != want:
-                C.ob("C16/decidable", tag + " from_paragraph", False, "from_paragraph could not be decided: %s (unknown calls %s)" % ([show_value(u)[:300] for u in und], sorted(I2.unknown_calls)), fns["from_paragraph"]["sp"])
+                C.ob(RP + "/decidable", tag + " from_paragraph", False, "from_paragraph could not be decided: %s (unknown calls %s)" % ([show_value(u)[:300] for u in und], sorted(I2.unknown_calls)), fns["from_paragraph"]["sp"])
             else:
                 diff = ""
                 if got != want and len(got) == 1:
@@ -230,7 +266,36 @@ def run(tier):
                         diff = "; differing fields: " + ", ".join("%s: wrote %s read %s" % (k, show_value(wd[k]), show_value(gd.get(k))) for k in wd if gd.get(k) != wd[k])
                     else:
                         diff = "; got " + show_value(g)
-                C.ob("C16/roundtrip", tag, got == want, "from_paragraph(to_paragraph(v)) != Ok(v)" + diff, fns["from_paragraph"]["sp"])
+                C.ob(RP + "/roundtrip", tag, got == want, "from_paragraph(to_paragraph(v)) != Ok(v)" + diff, fns["from_paragraph"]["sp"])
+            # an unparsable value must give an error naming the field (never a silently absent / defaulted field)
+            if some_mode is True and len(keys) == len(flds):
+                for fi, fld in enumerate(flds):
+                    bad = ("abs", "para", tuple((k, symstr.atom("garbage", "garbage") if j == fi else x) for j, (k, x) in enumerate(para[2])))
+                    I6 = hirai.Interp(F, Mod(F))
+                    try:
+                        res6 = I6.inline(fns["from_paragraph"], [bad], hirai.State(depth=1))
+                    except hirai.Violation:
+                        res6 = []
+                    verdicts = []
+                    for ctl, r, s in res6:
+                        r = I6.deep_deref(s, I6.deref_val(s, r), 0) if ctl == OK else r
+                        if ctl == OK and r[0] == "enum" and r[1] == ERRV:
+                            msg = symstr.show(r[2][0]) if r[2] and r[2][0][0] in ("sstr", "str") else None
+                            verdicts.append("err-names-field" if msg is not None and keys[fi] in msg else ("err-other:%s" % msg if msg is not None else "err-undecided"))
+                        elif ctl == OK and r[0] == "enum" and r[1] == OKV and r[2][0][0] == "struct":
+                            fv = dict(r[2][0][2]).get(fld["name"])
+                            absent = fv is not None and fv[0] == "enum" and fv[1] == NONE
+                            verdicts.append("ok-absent" if absent else ("ok-undecided" if has_unk(fv) else "ok-accepted"))
+                        else:
+                            verdicts.append("other:%s" % str(r)[:60])
+                    nbad += 1
+                    if verdicts and all(x in ("err-names-field", "ok-accepted") for x in verdicts):
+                        ndecided += 1
+                        continue
+                    if verdicts and all(x in ("err-names-field", "ok-accepted", "ok-undecided", "err-undecided") for x in verdicts):
+                        continue      # a codec the string domain cannot decide on this text: not counted, not reported
+                    C.ob(RP + "/unparsable-value-error", "%s.%s (%s)" % (sty, fld["name"], keys[fi]), False,
+                         "from_paragraph on a paragraph whose %s value no parser accepts yields %s; expected an error naming the field" % (keys[fi], sorted(set(verdicts)) or "no outcome"), fns["from_paragraph"]["sp"])
             # update_paragraph on a paragraph with a foreign field and stale own fields
             stale = tuple((symstr.lit(k), symstr.atom("stale_" + k)) for k in (keys_seen or keys))
             foreign = (symstr.lit("X-Foreign"), symstr.atom("foreign", "line"))
@@ -242,25 +307,25 @@ def run(tier):
             st3 = st3.setroot(("T", "para"), p0)
             res3 = I3.inline(fns["update_paragraph"], [("ref", pv), ("ref", (("T", "para"),))], st3)
             if len(res3) != 1 or res3[0][0] != OK:
-                C.ob("C16/decidable", tag + " update_paragraph", False, "update_paragraph could not be decided (%d outcomes)" % len(res3), fns["update_paragraph"]["sp"])
+                C.ob(RP + "/decidable", tag + " update_paragraph", False, "update_paragraph could not be decided (%d outcomes)" % len(res3), fns["update_paragraph"]["sp"])
                 continue
             p1 = res3[0][2].store[("T", "para")]
             own = set(keys_seen or keys)
             touched = {op[1] for op in mod3.ops}
-            C.ob("C16/update-own-keys", tag, touched <= own and len(mod3.ops) == len(flds),
+            C.ob(RP + "/update-own-keys", tag, touched <= own and len(mod3.ops) == len(flds),
                  "update_paragraph touches %s; the struct owns %s; %d operations for %d fields" % (sorted(touched - own), sorted(own), len(mod3.ops), len(flds)), fns["update_paragraph"]["sp"])
             fpos = [i for i, (k, x) in enumerate(p1[2]) if symstr.show(k) == "X-Foreign"]
-            C.ob("C16/update-foreign-untouched", tag, len(fpos) == 1 and p1[2][fpos[0]] == (normalize(foreign[0]), normalize(foreign[1])) or (len(fpos) == 1 and p1[2][fpos[0]][1] == foreign[1]),
+            C.ob(RP + "/update-foreign-untouched", tag, len(fpos) == 1 and p1[2][fpos[0]] == (normalize(foreign[0]), normalize(foreign[1])) or (len(fpos) == 1 and p1[2][fpos[0]][1] == foreign[1]),
                  "foreign field after update: %s" % [(symstr.show(k), symstr.show(x)) for k, x in p1[2] if symstr.show(k) == "X-Foreign"], fns["update_paragraph"]["sp"])
             absent_keys = [k for k, _ in p1[2] if symstr.show(k) in own and symstr.show(k) not in keys]
-            C.ob("C16/update-removes-absent", tag, not absent_keys, "fields whose value is absent remain in the paragraph: %s" % [symstr.show(k) for k in absent_keys], fns["update_paragraph"]["sp"])
+            C.ob(RP + "/update-removes-absent", tag, not absent_keys, "fields whose value is absent remain in the paragraph: %s" % [symstr.show(k) for k in absent_keys], fns["update_paragraph"]["sp"])
             I4 = hirai.Interp(F, mod)
             res4 = I4.inline(fns["from_paragraph"], [p1], hirai.State(depth=1))
             got4 = {normalize(r) for ctl, r, s in res4 if ctl == OK and not has_unk(r)}
             if any(has_unk(r) for _, r, _ in res4) and got4 != want:
                 pass
             else:
-                C.ob("C16/update-reads-back", tag, got4 == want, "paragraph updated from v does not read back as v", fns["update_paragraph"]["sp"])
+                C.ob(RP + "/update-reads-back", tag, got4 == want, "paragraph updated from v does not read back as v", fns["update_paragraph"]["sp"])
         # missing mandatory field -> error naming the field
         mand = [fld for fld in flds if not fld["ty"].startswith("core::option::Option<")]
         if mand and keys_seen:
@@ -275,16 +340,14 @@ def run(tier):
                     msgs.append(symstr.show(r[2][0]) if r[2][0][0] in ("sstr", "str") else str(r[2][0])[:60])
                 else:
                     okk = False
-            C.ob("C16/missing-field-error", sty, okk and first_key is not None and all(first_key in m for m in msgs),
+            C.ob(RP + "/missing-field-error", sty, okk and first_key is not None and all(first_key in m for m in msgs),
                  "from_paragraph(empty paragraph) yields %s; expected an error naming %s" % (msgs or [str(r)[:80] for _, r, _ in res5], first_key), fns["from_paragraph"]["sp"])
-    C.floor("C16/fields", nfields, FLOOR_FIELDS, "fields of deriving structs")
-    check_backends(F, C)
-    check_empty_value(F, C)
-    C.assumptions += ["opaque field types (lossy Relations, Version, Url, NaiveDate, PathBuf, ParsedVcs) print and parse an atom unchanged: " + "; ".join("%s (%s)" % kv for kv in OPAQUE_TYPES.items()),
-                      "paragraph back-ends implement ordered list semantics for get/set/remove (C04, C08)"]
-    return C.finish("The derive-generated from_paragraph / to_paragraph / update_paragraph of every deriving struct are interpreted over symbolic values "
-                    "(all optionals present / all absent) against an ordered list-of-pairs paragraph: key set and order, custom (de)serialiser agreement, "
-                    "read-back equality, update touching only own keys, removal of absent optionals, foreign field preservation and the missing-field error text.")
+    if floors:
+        C.floor(RP + "/fields", nfields, FLOOR_FIELDS, "fields of deriving structs")
+        C.note("unparsable-value runs", "%d fields given an unparsable value, %d decided (error names the field, or the type accepts any text)" % (nbad, ndecided))
+        C.floor(RP + "/unparsable-value-error", ndecided, 100, "fields for which the unparsable-value clause was decided")
+    RP = "C16"
+    return nfields
 
 
 def check_empty_value(F, C):
@@ -293,7 +356,7 @@ def check_empty_value(F, C):
     import treemodel
     P = "deb822_lossless::lossless::"
     f = F.fn(P + "Entry::new")
-    if not C.ob("C16/anchor", P + "Entry::new", f is not None, "not found"):
+    if not C.ob(RP + "/anchor", P + "Entry::new", f is not None, "not found"):
         return
     tm = treemodel.TreeMod(F, "deb822_lossless::lex::SyntaxKind")
     I = hirai.Interp(F, tm, max_depth=12)
@@ -311,7 +374,7 @@ def check_empty_value(F, C):
                 kinds = [h[c][2] for c in h[v[2][0][2]][3]]
                 ok = text.startswith("K:") and text.endswith("\n") and kinds[-1] == "NEWLINE" and "VALUE" in kinds
                 detail = "Entry::new(K, \"\") builds %r with token kinds %s" % (text, kinds)
-        C.ob("C16/lossless-empty-value", "Entry::new with an empty value", ok, detail + " (an empty value must still give a newline-terminated field with an empty VALUE)", f["sp"])
+        C.ob(RP + "/lossless-empty-value", "Entry::new with an empty value", ok, detail + " (an empty value must still give a newline-terminated field with an empty VALUE)", f["sp"])
     finally:
         hirai.INT_BOUND = old
 
@@ -321,7 +384,7 @@ def check_backends(F, C):
         for m in ("get", "set", "remove"):
             k = "<%s as deb822_lossless::convert::Deb822LikeParagraph>::%s" % (back, m)
             f = F.fn(k)
-            if not C.ob("C16/backend-anchor", k, f is not None, "impl not found"):
+            if not C.ob(RP + "/backend-anchor", k, f is not None, "impl not found"):
                 continue
             target = "%s::%s" % (back, m)
             cs = [c for c in facts.calls(f["body"]) if facts.callee(c) == target]
@@ -335,4 +398,4 @@ def check_backends(F, C):
                     names.append(a["res"]["name"] if a.get("k") == "Path" and a["res"].get("k") == "Local" else None)
                 params = [p.get("name") for p in f["params"]]
                 ok = names == params
-            C.ob("C16/backend-delegates", k, ok, "the trait method must delegate to the inherent %s with its own arguments in order" % target, f["sp"])
+            C.ob(RP + "/backend-delegates", k, ok, "the trait method must delegate to the inherent %s with its own arguments in order" % target, f["sp"])
